@@ -118,6 +118,11 @@ def elem_source(v, depth=0):
             if isinstance(clo, dict) and clo.get('k') == 'closure' and isinstance(clo.get('body'), dict) and clo['body'].get('k') != 'big':
                 return clo['body']
             return None
+        if kk == 'call' and src.get('f') == 'flat_map' and src.get('args'):
+            clo = vt.strip(src['args'][0])
+            if isinstance(clo, dict) and clo.get('k') == 'closure' and isinstance(clo.get('body'), dict) and clo['body'].get('k') != 'big':
+                return {'k': 'elem', 'of': clo['body']}
+            return None
         if kk == 'call' and src.get('f') == 'zip' and src.get('args'):
             a = {'k': 'elem', 'of': src['recv']}
             b = {'k': 'elem', 'of': src['args'][0]}
@@ -262,6 +267,10 @@ def flatten_c(T, v, depth=0, limit=64):
                 for body in [fn['tail']] + [r['v'] for r in fn.get('returns', []) if r.get('v')]:
                     out.extend(flatten_c(T, subst(body, env), depth + 1, limit))
                 return [(c2, sq) for c2, sq in out if sq or True][:limit]
+        if f in ('map', 'filter_map') and v.get('recv') is not None and v.get('args'):
+            clo = vt.strip(v['args'][0])
+            if isinstance(clo, dict) and clo.get('k') == 'closure' and isinstance(clo.get('body'), dict) and clo['body'].get('k') != 'big':
+                return flatten_c(T, clo['body'], depth + 1, limit)
         if f in ('join', 'join_with', 'concat'):
             items = _source_items(T, v.get('recv'), depth + 1, limit)
             sep = ''
@@ -297,6 +306,13 @@ def flatten_c(T, v, depth=0, limit=64):
         rp = resolve_proj(v)
         if rp is not None:
             return flatten_c(T, rp, depth + 1, limit)
+    if kk == 'elem':
+        # an element of a string split into pieces: the piece carries the provenance of the whole, via the splitter
+        src = v.get('of')
+        while isinstance(src, dict) and src.get('k') in ('var', 'try', 'some'):
+            src = src['v']
+        if isinstance(src, dict) and src.get('k') == 'call' and src.get('f') in ('split', 'lines', 'split_terminator', 'split_inclusive', 'split_whitespace', 'rsplit', 'splitn') and src.get('recv') is not None:
+            return flatten_c(T, src, depth + 1, limit)
     if kk == 'field':
         rf = field_of_call(T, v)
         if rf is not None:
